@@ -367,6 +367,8 @@ def path_conditions(crate, root, target):
                 if s is nxt:
                     break
                 guards_of_stmt(s)
+        elif k is None and "pat" in n and "body" in n and n.get("guard") is not None and nxt is n["body"]:
+            out.append(dict(c=n["guard"], pol=True, node=n, kind="if"))      # `PAT if guard => body`
         elif k == "if":
             if nxt is n["th"]:
                 out.append(dict(c=n["c"], pol=True, node=n, kind="if"))
